@@ -9,6 +9,41 @@ CLAIMED = {
              "seeded random items and compared with the implementation (spec verdict is the oracle).",
         note="Blake2b-256 collision freedom; bound N=70 (quick) / 300 (thorough) list lengths; random item contents.",
         design_ref="§5 C35", engine="ledger-decision"),
+    "C03": dict(
+        technique="TLA+ transcription of the RFC 8949 head grammar (CborHead.tla), TLC proves ListId(Encode(form,n,v)) = v over all header forms and enumerates every encoding; replay on cbor.DecodeIdFromList and on every tagged-sum decoder re-headed in each form",
+        text="The head grammar and ListId are a TLA+ definition; TLC checks its self-consistency for every admissible array-header form and emits each encoding with the expected id; the driver feeds them to DecodeIdFromList and re-heads a valid minimal encoding of each variant of 28 tagged-sum decoders in every form (same variant or an error is required).",
+        note="bounded list lengths / ids (n in {1,2,3,23,24,25}, ids up to 65536); variants taken from library constructors and fixtures.",
+        design_ref="§5 C03", engine="ledger-decision"),
+    "C05": dict(
+        technique="TLA+ decision structure of the address header/layout/length/HRP/pointer-varint rules (Address.tla), TLC enumeration of all 256 header bytes x length deviations x pointer triples x HRPs, replay on the address API",
+        text="Address.tla is the decision structure (types 0-7,14,15; networks; exact lengths; trailer whitelist; HRP table; minimal base-128 pointers; Byron wrapper/CRC/root). TLC checks decode.encode = id on the abstract address and emits every case with verdict and projected fields; the driver materialises them with seeded hashes and compares accept/reject, every accessor and both round trips.",
+        note="bech32/base58 character-level fidelity only exercised; pointer components from a 5-value boundary set.",
+        design_ref="§5 C05", engine="ledger-decision"),
+    "C20": dict(
+        technique="TB: version tables dumped from the running code become CONSTANTS of VersionTable.tla, TLC checks the table laws; replay of every (version, magic, flags) through that version's own codec",
+        text="GetProtocolVersion is scanned over all 65536 version numbers, the two lists and the generated version maps are dumped; TLC checks class bits, ascending order, era-prefix monotonicity and flag representability against expectations written from the network specification; every (version, magic, diffusion, peer-sharing, query) is encoded/decoded with the version's own decoder.",
+        note="reference expectations (which version carries which flags / eras) are my transcription of the network spec.",
+        design_ref="§5 C20", engine="tables"),
+    "C22": dict(
+        technique="TB+RP: block/header type maps as TLC constants (EraDispatch.tla), real fixture blocks of every era served through chain-sync roll-forward to a real client over the engine in NtC and NtN mode",
+        text="TLC checks H2B(B2H(T)) = T and the identity laws on the dumped maps; 19 real blocks are served through Server.RollForward over two real Connections on net.Pipe (and through the constructors/wrappers directly) and the callback's type, bytes and hash are compared with what was served.",
+        note="thin model; Byron over NtN is refused by the server and recorded as an observation.",
+        design_ref="§5 C22", engine="tables"),
+    "C36": dict(
+        technique="TB: era version ranges, DetermineBlockType results for both header layouts and majors 0..64, block/header maps dumped from the code as TLC constants (EraDispatch.tla); replay of fixture blocks through every decode entry point",
+        text="TLC checks range disjointness, that a dispatch result's range contains the major and matches the layout, that the maps are mutually inverse and type->era functional; 26 blocks are decoded through 10 entry points and must report the requested type and its era.",
+        note="only the two header layouts the property names are required to classify; errors on other layouts / refused decodes are recorded as observations.",
+        design_ref="§5 C36", engine="tables"),
+    "C39": dict(
+        technique="TLA+ model of the KES sum composition over symbolic leaf keys (Kes.tla), TLC invariants over all key/period/message/corruption combinations, behaviours replayed on the real kes package with bit-flip corruption",
+        text="Kes.tla transcribes KeyGen/Update/Sign/Verify; TLC checks PkConstant, ForwardSecure, PeriodBound, SignCurrentOnly, Exhaustion exhaustively for depth <= 3 (and period extremes for depth 4-6) and emits API histories with the expected result of every call; the driver replays them on real keys (depth 1..6).",
+        note="symbolic crypto in the model (hashes injective, signatures unforgeable); corruption = one seeded bit flip in the named component.",
+        design_ref="§5 C39", engine="consensus"),
+    "C46": dict(
+        technique="TLA+ model of the DMQ authenticator (DmqAuth.tla: registered pools, op-cert counter cache, verifier, insecure flag), TLC invariants + transition cover + bounded histories, replayed on the real authenticator with real keys",
+        text="TLC checks OnlyAuthentic, RejectKeepsState, Monotone, CacheIsLastAccepted over 2 pools x 3 counters x 8 validity triples and all 3-call histories, and emits 13k behaviours (incl. seeded 24-call chains) with the expected verdict and abstract state after every call; the driver replays them with real ed25519 cold keys, op-cert signatures and depth-6 KES.",
+        note="symbolic crypto in the model; counters mapped order-isomorphically onto 0..2^64-1.",
+        design_ref="§5 C46", engine="dmq"),
     "C42": dict(
         technique="TLA+ spec of the pipeline goroutines (Pipeline.tla), TLC safety+liveness, TLC-simulated schedules forced on the real pipeline through blocking gates",
         text="Pipeline.tla models Submit, stage workers, the apply runner, Stop and WaitForDrain at the grain of the verif gates; "
